@@ -17,8 +17,10 @@ FromObs(o) ==
     [types |-> Strips(o.types),
      l1 |-> o.funcs[1].locals, l2 |-> o.funcs[2].locals,
      p1 |-> Len(o.funcs[1].params), p2 |-> Len(o.funcs[2].params),
-     funcs |-> <<>>, replaced |-> FALSE,
-     globals |-> o.globals, mems |-> o.mems, data |-> o.data,
+     funcs |-> <<>>, replaced |-> FALSE, converted |-> FALSE, rejected |-> FALSE,
+     globals |-> o.globals, mems |-> o.mems, data |-> o.data, iglobals |-> <<>>, imems |-> <<>>,
+     \* the base: imported function 0, local functions 1 and 2, one local global, one local memory
+     fh |-> <<TRUE, FALSE, FALSE>>, gh |-> <<FALSE>>, mh |-> <<FALSE>>,
      exports |-> Range(o.exports), customs |-> o.customs]
 
 Init == cid \in 1 .. Len(Cases) /\ k = 0 /\ E = <<>>
@@ -30,7 +32,9 @@ Step ==
     /\ k >= 1 /\ "skip" \notin DOMAIN C /\ k <= Len(C.prog)
     /\ k' = k + 1 /\ UNCHANGED cid
     /\ IF Op.panic
-       THEN Chk("call_panicked", FALSE, [op |-> Op.op, msg |-> Op.msg]) /\ UNCHANGED E
+       THEN Chk("call_panicked", FALSE, [op |-> Op.op, msg |-> Op.msg, after_conv |-> E.converted])
+            \* the rejected call may have half-updated the module: its final content is not judged
+            /\ E' = [E EXCEPT !.rejected = TRUE]
        ELSE
        CASE Op.op = "add_local" ->
               /\ Chk("local_index", Op.ret = AddLocalRet(E, Op.f), [want |-> AddLocalRet(E, Op.f), got |-> Op.ret, via |-> Op.via])
@@ -38,20 +42,31 @@ Step ==
          [] Op.op = "build" ->
               /\ Chk("builder_local_index", Op.ret.lids = BuiltLocalIds(Op), [want |-> BuiltLocalIds(Op), got |-> Op.ret.lids])
               /\ E' = [AddType(E, Op.req) EXCEPT !.funcs = Append(@, [f |-> BuiltFunc(Op), export |-> Op.ret.export, via |-> Op.via]),
-                                                  !.replaced = @ \/ Op.via = "replace"]
+                                                  !.replaced = @ \/ Op.via = "replace",
+                                                  \* the harness exports every built function under a fresh name to observe its ID
+                                                  !.exports = @ \cup {[name |-> Op.ret.export, kind |-> "Func", index |-> Op.ret.id]},
+                                                  !.fh = IF Op.via = "replace" THEN @ ELSE Append(@, FALSE)]
+              /\ (Op.via # "replace") => Chk("built_func_id", Op.ret.id = NextHandle(E, "f"), [want |-> NextHandle(E, "f"), got |-> Op.ret.id])
+         [] Op.op = "conv" -> Chk("conv_refused", Op.ret, [f |-> Op.f]) /\ E' = [E EXCEPT !.converted = TRUE]
          [] Op.op = "add_type" ->
               /\ Chk("type_index", AddTypeRetOk(E, Op.req, Op.ret), [req |-> Op.req, got |-> Op.ret, ntypes |-> Len(E.types)])
               /\ E' = AddType(E, Op.req)
          [] Op.op = "add_global" ->
-              /\ Chk("global_index", Op.ret = Len(E.globals), [want |-> Len(E.globals), got |-> Op.ret])
+              /\ Chk("global_index", Op.ret = NextHandle(E, "g"), [want |-> NextHandle(E, "g"), got |-> Op.ret])
               /\ E' = AddGlobal(E, Op.req)
+         [] Op.op = "add_iglobal" ->
+              /\ Chk("global_index", Op.ret = NextHandle(E, "g"), [want |-> NextHandle(E, "g"), got |-> Op.ret])
+              /\ E' = AddIGlobal(E, Op.req)
+         [] Op.op = "add_ifunc" ->
+              /\ Chk("func_index", Op.ret = NextHandle(E, "f"), [want |-> NextHandle(E, "f"), got |-> Op.ret])
+              /\ E' = AddIFunc(E)
          [] Op.op = "mod_init" -> E' = ModInit(E, Op.g, Op.req)
          [] Op.op = "add_data" ->
               /\ Chk("data_index", Op.ret = Len(E.data), [want |-> Len(E.data), got |-> Op.ret])
               /\ E' = AddData(E, Op.req)
          [] Op.op = "add_memory" ->
-              /\ Chk("memory_index", Op.ret = Len(E.mems), [want |-> Len(E.mems), got |-> Op.ret])
-              /\ E' = AddMemory(E, Op.req)
+              /\ Chk("memory_index", Op.ret = NextHandle(E, "m"), [want |-> NextHandle(E, "m"), got |-> Op.ret])
+              /\ E' = IF Op.kind = "import" THEN AddIMemory(E, Op.req) ELSE AddMemory(E, Op.req)
          [] Op.op = "add_export" ->
               E' = AddExport(E, [name |-> "x" \o ToString(Op.n), kind |-> (IF Op.kind = "mem" THEN "Memory" ELSE "Func"), index |-> Op.id])
          [] Op.op = "cust_add" ->
@@ -74,22 +89,27 @@ FuncOfExport(o, name) ==
 Final ==
     /\ k >= 1 /\ "skip" \notin DOMAIN C /\ k = Len(C.prog) + 1
     /\ k' = k + 1 /\ UNCHANGED <<cid, E>>
-    /\ Chk("encode_panic", ~C.encode_panic, [msg |-> IF C.encode_panic THEN C.msg ELSE ""])
-    /\ C.encode_panic \/
+    /\ Chk("encode_panic", E.rejected \/ ~C.encode_panic, [msg |-> IF C.encode_panic THEN C.msg ELSE ""])
+    /\ C.encode_panic \/ E.rejected \/
        LET o == C.obs IN
        /\ Chk("invalid", C.valid, [err |-> C.err])
        /\ Chk("types", Strips(o.types) = E.types, [want |-> Len(E.types), got |-> Len(o.types)])
-       /\ Chk("locals", o.funcs[IF E.replaced THEN 1 ELSE 1].locals = E.l1 /\ o.funcs[2].locals = E.l2,
-              [l1 |-> o.funcs[1].locals, l2 |-> o.funcs[2].locals, want1 |-> E.l1, want2 |-> E.l2])
-       /\ Chk("globals", o.globals = E.globals, [want |-> E.globals, got |-> o.globals])
+       /\ Chk("locals", o.funcs[1].locals = E.l1 /\ (E.converted \/ o.funcs[2].locals = E.l2),
+              [l1 |-> o.funcs[1].locals, want1 |-> E.l1, want2 |-> E.l2])
+       /\ Chk("globals", ItemsOk(E, o.globals, E.globals), [want |-> E.globals, got |-> o.globals, gh |-> E.gh, fh |-> E.fh])
        /\ Chk("memories", o.mems = E.mems, [want |-> E.mems, got |-> o.mems])
-       /\ Chk("data", o.data = E.data, [want |-> E.data, got |-> o.data])
+       /\ Chk("imported_memories", o.impmems = E.imems, [want |-> E.imems, got |-> o.impmems])
+       /\ Chk("imported_globals", o.impglobals = E.iglobals, [want |-> E.iglobals, got |-> o.impglobals])
+       /\ Chk("data", ItemsOk(E, o.data, E.data), [want |-> E.data, got |-> o.data, mh |-> E.mh])
        \* replacing the import renumbers the functions: then only name and kind of exports are compared
-       /\ Chk("exports", \A x \in E.exports : \E y \in Range(o.exports) :
-                             y.name = x.name /\ y.kind = x.kind /\ (E.replaced \/ y.index = x.index),
-              [want |-> Cardinality(E.exports)])
+       /\ \A x \in E.exports :
+             Chk("exports", \E y \in Range(o.exports) :
+                             y.name = x.name /\ y.kind = x.kind /\ (E.replaced \/ E.converted \/ y.index = FinalIdx(E, SpOfKind(x.kind), x.index)),
+                 [name |-> x.name, kind |-> x.kind, handle |-> x.index, want |-> FinalIdx(E, SpOfKind(x.kind), x.index),
+                  got |-> {y.index : y \in {z \in Range(o.exports) : z.name = x.name}}])
+       /\ Chk("export_count", Len(o.exports) = Cardinality(E.exports), [want |-> Cardinality(E.exports), got |-> Len(o.exports)])
        /\ Chk("customs", o.customs = E.customs, [want |-> E.customs, got |-> o.customs])
-       /\ Chk("func_count", Len(o.funcs) = 2 + Len(E.funcs), [want |-> 2 + Len(E.funcs), got |-> Len(o.funcs)])
+       /\ Chk("func_count", Len(o.funcs) = (IF E.converted THEN 1 ELSE 2) + Len(E.funcs), [want |-> (IF E.converted THEN 1 ELSE 2) + Len(E.funcs), got |-> Len(o.funcs)])
        /\ \A i \in DOMAIN E.funcs :
             LET b == E.funcs[i]
                 got == FuncOfExport(o, b.export)
@@ -98,7 +118,9 @@ Final ==
                     Chk("built_func", /\ g.params = b.f.params /\ g.results = b.f.results /\ g.locals = b.f.locals
                                       /\ g.body = b.f.body /\ (b.via = "replace" \/ g.name = b.f.name),
                         [want |-> b.f, got |-> [params |-> g.params, results |-> g.results, locals |-> g.locals, body |-> g.body, name |-> g.name]])
-       /\ E.replaced => Chk("import_not_removed", o.nimp = 0, [nimp |-> o.nimp])
+       /\ E.replaced => Chk("import_not_removed", o.nimp = CountImp(E.fh, Len(E.fh)) - 1, [nimp |-> o.nimp])
+       /\ E.converted => Chk("converted_not_import", o.nimp = CountImp(E.fh, Len(E.fh)) + 1, [nimp |-> o.nimp])
+       /\ (~E.replaced /\ ~E.converted) => Chk("import_count", o.nimp = CountImp(E.fh, Len(E.fh)), [want |-> CountImp(E.fh, Len(E.fh)), got |-> o.nimp])
 
 Next == Start \/ Step \/ Final
 Spec == Init /\ [][Next]_vars
